@@ -759,6 +759,8 @@ pub fn process_request(input: &str, dbs: &Arc<Databases>, client: &mut Client) -
 
     let result = process_request_obj(&request, &dbs, client);
 
+    #[cfg(nun_verif)]
+    crate::verif::yield_point("process_request.apply_to_replicate");
     let elapsed = start.elapsed();
     log::info!(
         "[{}] Server processed message '{}' in {:?}",
